@@ -381,9 +381,11 @@ func (u *Unit) pureApp(name string, con *Contract, sig *types.Signature, args []
 	}
 	reads := u.e.readSet(name, con)
 	for _, k := range reads {
+		// the heap enters the application as a version token, not as an array value: applications on the
+		// syntactically same heap are congruent, and solvers never have to decide equality of array terms
 		arr := u.heapGetKey(st, k)
-		ts = append(ts, arr)
-		sorts = append(sorts, arr.Sort)
+		ts = append(ts, u.heapToken(arr))
+		sorts = append(sorts, SInt)
 	}
 	var out []*SV
 	for i := 0; i < sig.Results().Len(); i++ {
@@ -425,6 +427,8 @@ func (u *Unit) heapGetKey(st *State, key string) *Term {
 	case "MD":
 		ks := mkSort(parts[1])
 		return u.heapGet(st, key, ArraySort(SRef, ArraySort(ks, SBool)))
+	case "ML":
+		return u.heapGet(st, key, ArraySort(SRef, SInt))
 	case "MV":
 		ks := mkSort(parts[1])
 		vs := mkSort(strings.Join(parts[3:], ":"))
@@ -682,6 +686,7 @@ func (u *Unit) builtinAppend(fc *frameCtx, st *State, pc *Term, argVals []ssa.Va
 	grow := st.clone()
 	growGuard := c.And(pc, c.Not(fits))
 	arr := u.allocObj(grow)
+	u.assume(growGuard, c.Eq(u.rootType(c.Root(arr)), u.arrTypeID(et)))
 	ncap := c.Fresh("newcap", SInt)
 	u.assume(growGuard, c.Ge(ncap, n))
 	resGrow := c.MkSlice(arr, c.Int(0), n, ncap)
@@ -738,3 +743,13 @@ func (u *Unit) copyElems(to, from *State, guard *Term, dst, doff, src, soff, n *
 		u.assume(guard, c.Forall([]*Term{i}, c.Implies(c.And(c.Le(c.Int(0), i), c.Lt(i, n)), c.Eq(lhs, rhs)), []*Term{lhs}))
 	}
 }
+
+// heapToken names a heap array term by an integer token (ite distributes, everything else is its own token).
+func (u *Unit) heapToken(arr *Term) *Term {
+	if arr.Op == "ite" {
+		return u.c.Ite(arr.Args[0], u.heapToken(arr.Args[1]), u.heapToken(arr.Args[2]))
+	}
+	return u.c.Const("hv!"+itoa(arr.id), SInt)
+}
+
+func itoa(i int) string { return fmt.Sprintf("%d", i) }
